@@ -7,14 +7,15 @@ Import ListNotations.
 From BWTable Require Import Cells Fmt StrOrder FmtProofs Sort SortProofs.
 
 (* value order of two cells of the same kind: int64 numerically, time anchors chronologically, text by its
-   characters, float64 numerically (IEEE comparison; NaN compares equal to everything), every other value by its
-   printed form. *)
+   characters, blob by its bytes, float64 numerically (IEEE comparison; NaN compares equal to everything), every other
+   value by its printed form. *)
 Definition spec_cmp (a b : cell) : comparison :=
   match a, b with
   | CL la, CL lb =>
       match l_val la, l_val lb with
       | VInt x, VInt y => Z.compare x y
       | VText x, VText y => str_compare x y
+      | VBlob x, VBlob y => str_compare x y
       | VFloat x, VFloat y => match SFcompare x y with Some o => o | None => Eq end
       | _, _ => str_compare (l_str la) (l_str lb)
       end
@@ -78,7 +79,8 @@ Section D12.
         | VInt v => (0 <=? v)%Z && (v <? two63)%Z && str_eqb (l_cmp l) (int_cmp_string v)
         | VText s => above_quote s && str_eqb (l_cmp l) (text_string s)
         | VFloat _ => fl_ok l
-        | VBool _ | VBlob _ => str_eqb (l_cmp l) (l_str l) && trim_ok (l_cmp l)
+        | VBool _ => str_eqb (l_cmp l) (l_str l) && trim_ok (l_cmp l)
+        | VBlob _ => false          (* as found blobs were ordered by their printed decimal form, not by their bytes *)
         end
     end.
 
